@@ -19,7 +19,8 @@ func GenPrim(g *kernel.Rng) interface{} {
 	case 0, 1, 2:
 		return float64(g.Range(-5, 50))
 	case 3:
-		return []float64{0, -0.5, 1e15, 9007199254740992, 1e300, 3.25, -1e-7, 2147483648}[g.Intn(8)]
+		// (the last two: integers beyond 2^53, the size of a UnixNano or of a 64-bit id)
+		return []float64{0, -0.5, 1e15, 9007199254740992, 1e300, 3.25, -1e-7, 2147483648, 1790331072123456768, -4611686018427387904}[g.Intn(10)]
 	case 4:
 		return g.Chance(1, 2)
 	case 5, 6:
